@@ -1181,3 +1181,7 @@ fn rs_witness() {
     std::mem::forget(p);
     std::mem::forget(ch);
 }
+
+pub(crate) fn recv_mem(ch: &ReceiveChannelReliable) -> usize {
+    ch.memory_usage_bytes
+}
